@@ -82,8 +82,14 @@ CHECKS = {
    category="proof",
    text="Exact-sum clause of the statement, verified modularly in exact arithmetic: the real apmath functions vecsum, vecsumerr, renormalize (eager and functional, fast and safe, with and without a size limit), nztopk, negate, add, subtract, multiply and square run on ring elements with two_sum / quick_two_sum / two_prod replaced by their contracts (s + t = x + y, p + e = x*y with s, p arbitrary - discharged under C10); every zero test on an item forks exhaustively; on every path the exact sum of the output equals the exact sum / difference / product / square of the input, and with a size limit k the output is the first k items of the unlimited output. Holds for every floating-point format at once.",
    design_ref="DESIGN.md section 4 C12",
-   note="List lengths are enumerated (renormalisation 1..4 items quick / 1..6 thorough; add/subtract up to 2+2 terms; products up to 2x1) - a stated bound; values are universally quantified. NOT decided: the normal-form clause (decreasing magnitudes, non-overlap after two passes) and the 1-ulp bound of products/squares (bit-precise reasoning over ~30 chained additions, not within reach). The make_api dispatch wrapper is bypassed.",
+   note="List lengths are enumerated (renormalisation 1..4 items quick / 1..6 thorough; add/subtract up to 2+2 terms and products up to 2x1 through the callee bodies; add/subtract/multiply/square up to 4+4 / 4x4 / 4 terms against the callee CONTRACTS of vecsum and renormalize: same length, same exact sum - these contracts are discharged directly only up to 4 (6) items and are used beyond that length as an assumption) - a stated bound; values are universally quantified. NOT decided: the normal-form clause (decreasing magnitudes, non-overlap after two passes) and the 1-ulp bound of products/squares (bit-precise reasoning over ~30 chained additions, not within reach). The make_api dispatch wrapper is bypassed.",
    technique="contract-based deductive verification, modular: real functions on ring elements with callee contracts, exhaustive path forking on zero tests, postcondition = ring identity decided by canonical forms"),
+ "C11": dict(
+   category="proof",
+   text="The single-operation members of the statement, bit-precisely for every input: next / nextup / nextdown return the float whose bit pattern is bits(x)+-1 for every normal x whose neighbour in that direction is normal (both branches at float16 and float32, the dividing branch at float64); is_power_of_two (and invert=True) answers exactly 'one significand bit set' on its documented domain at float16/32/64; is_one_or_three_times_power_of_two answers exactly 'significand 1.0 or 1.5' where P*x is finite and the chain stays normal. The real functions run on symbolic floats; one multiplication/division by a format constant per obligation is bit-blasted (z3, cvc5 for the float32 multiplication branch).",
+   design_ref="DESIGN.md section 4 C11, 9.7",
+   note="NOT decided by contracts: 3Sum/4Sum/add_dw/mul_add/dot2 ULP bounds and the fma variants (ULP bounds against the correctly rounded exact result over chains of Dekker products; see DESIGN 9.7); next at float64 on the multiplying branch is attempted in the thorough tier and not claimed.",
+   technique="contract-based deductive verification: real functions executed on symbolic IEEE floats, per-path verification conditions in QF_BVFP discharged by z3 5.1 / cvc5 1.0.3"),
 }
 NA_PENDING = "check not built yet in this session (planned, see DESIGN.md section 4)"
 NA = {
